@@ -72,6 +72,19 @@ CLAIMED["C20"] = {
     "assumptions": ["loading files are addressed by their real (link-free) paths", "locations whose lexical and physical '..' interpretation differ are checked for safety only, not for which inside file is chosen"],
 }
 
+CLAIMED["C09"] = {
+    "engine": "interleave",
+    "level": "exploration",
+    "technique": "deterministic simulation of goroutine interleaving: 2-4 real runtimes on their own goroutines load one shared parse under a seeded scheduler that releases one goroutine per step (race-detector-invisible baton); solo-twin equivalence, per-event structural fingerprint, literal constancy, Go race detector and the checked-build inspectors as oracles",
+    "text": "One source text is parsed once and loaded 1-3 times by each of 2-4 runtimes (through a caching Reader and through lisp.Program), every evaluation step being a scheduling point; schedules are uniform, bursty or round-robin lists drawn from the seed, with optional unrelated activity, heap churn and GC between events. Programs route quoted literals, nested literals, views (cdr/rest/slice/reverse), macro &rest lists and quasiquote templates into stable-sort, append!, append, slice 'vector, assoc!, insert-index, macroexpand, then re-evaluate and print the literals. Oracles: every load's transcript and step count equal those of the same load of a fresh parse in a runtime running alone; lisp.SealedASTFingerprint of the shared roots is unchanged after every scheduling event; every observation of a literal prints the same as in a pristine runtime; singleton snapshot verifies; the same cases under -race (the baton hides no happens-before edge) produce no data-race report involving repository code; the -tags elpscheck flavour's seal/ownership/singleton inspectors stay silent; concurrent GenSym/GenEnvID callers get distinct values. Seeded sampling of programs and schedules.",
+    "note": "Trusted: the baton scheduler (sim/e5_interleave.go), Go's race detector, lisp.SealedASTFingerprint's coverage contract. Race reports are attributed to a case by log growth; racy cases are not shrunk in-process (the detector reports each racy pair once per process) but the replay file reproduces in a fresh process.",
+    "design_ref": "4/C09",
+    "rule": "case = program biased to in-place/capacity-sensitive builtins on literals and views x number of runtimes x loads per runtime x per-runtime knobs x explicit schedule; distinct_nontrivial counts distinct (schedule, all transcripts) hashes among cases with more than one context switch between runtimes; the three build flavours (plain, race, elpscheck) are counted separately.",
+    "real": REAL + ["lisp.Program / ReadProgram / LoadProgramContext", "lisp.SealedASTFingerprint, TakeSingletonSnapshot", "Go race detector (flavour race)", "the repository's -tags elpscheck inspectors (flavour elpscheck)"],
+    "stubs": STUBS + ["goroutine scheduler (baton)", "caching lisp.Reader returning one shared parse", "scratch runtime + heap churn + forced GC as perturbation"],
+    "assumptions": ["each Runtime is driven by exactly one goroutine (the documented topology)", "yield points are the interpreter's own per-step context polls; code between two polls runs atomically"],
+}
+
 NOT_APPLICABLE = {
     "C01": "pure function of the program text: no schedule, clock, fault or history in the statement; needs a definitional interpreter (differential testing), which is a different technique",
     "C02": "relation between two fault-free deterministic executions under two static configurations plus a height bound that is a function of the program; nothing for a simulator to schedule or inject (the TRO knob is still randomised inside C04-C06)",
@@ -81,7 +94,6 @@ NOT_APPLICABLE = {
     "C13": "law over a single JSON value / document; no schedule, clock, fault or history",
     "C14": "law over schema x value; no schedule, clock, fault or history",
     "C08": "a simulation target in DESIGN.md (history clauses); check not built yet at this commit",
-    "C09": "a simulation target in DESIGN.md; check not built yet at this commit",
     "C10": "a simulation target in DESIGN.md; check not built yet at this commit",
     "C11": "a simulation target in DESIGN.md (history clauses); check not built yet at this commit",
     "C16": "text-to-text function of the source; no schedule, clock, fault or history",
